@@ -308,7 +308,7 @@ func c10run(w *report.W) {
 			}
 		}
 	}
-	callers = append(callers, map[string]string{"a": "lower"}, map[string]string{"b": "lowb", "A": "ra"})
+	callers = append(callers, map[string]string{"a": "lower"}, map[string]string{"b": "lowb", "A": "ra"}, map[string]string{"N": "p=q", "A": "x=y=z"})
 	impls := []string{"own", "lib", "nil"}
 	for _, al := range alphas {
 		opts := len(al.names) * len(al.values)
@@ -366,7 +366,7 @@ func init() {
 	register(&report.Check{
 		ID: "C10",
 		Rule: "every env block of 1..3 (thorough: ..4, plus long single-name chains) entries over name alphabet {A,B,a,$N,...} and value alphabet {literal,$A,${B},$$A,${A:-d},$UNSET,$RT,...} " +
-			"x 14 caller environments (A, RT, N->A/C, lower-case names) x prefer-runtime flag x case-sensitive/insensitive x environment implementation " +
+			"x 15 caller environments (A, RT, N->A/C, lower-case names, values containing `=` that end up in entry names) x prefer-runtime flag x case-sensitive/insensitive x environment implementation " +
 			"(harness-owned, the library's internal env, nil) is run through the real Pipeline.Interpolate with two probe commands (values; set-versus-unset through ${V-default}), a top-level extra field and one command step per block name/value text (the same text again) and compared " +
 			"with a reference left fold (block order and contents, probe strings, caller env afterwards). Non-trivial = more than one entry.",
 		Assumptions: []string{
